@@ -15,7 +15,8 @@ TMAX == 1000000
 VARIABLES kind, s, a, b, c, d
 vars == <<kind, s, a, b, c, d>>
 
-Edges == {0, 1, 2, 3, 4}
+\* the last edge may be the element type's maximum itself (an edge equal to a value at the end of the range)
+Edges == {0, 1, 2, 3, 4, TMAX}
 AscSeqs == {SetToSortSeq(es, LAMBDA x, y : x < y) : es \in SUBSET Edges}
 CutVals == <<TMIN, 0 - 1, 0, 1, 2, 3, 4, 5, TMAX, NULL>>
 
